@@ -35,16 +35,24 @@ Definition qubits (g : gate) : list nat := g_ctrl g ++ g_targ g.
 
 Definition angle_flag (g : gate) : bool :=
   match g_par g with Some a => is_clifford_given_angle a | None => false end.
+Definition angle_flag_half (g : gate) : bool :=
+  match g_par g with Some a => is_clifford_given_half_angle a | None => false end.
 
-(* gate.clifford *)
-Definition clifford (g : gate) : bool :=
+(* gate.clifford.  `half` selects the flag of the controlled rotations:
+     true  : _CRn_.clifford tests theta / 2   (tree after repair D; multiples of pi)
+     false : _CRn_.clifford tests theta       (tree before repair D)
+   the harness probes the tree (CRX(0,1,pi/2).clifford) and uses the matching variant *)
+Definition clifford_at (half : bool) (g : gate) : bool :=
   match g_cls g with
   | cH | cX | cY | cZ | cS | cSDG | cSX | cSXDG | cI
   | cCNOT | cCY | cCZ | cSWAP | ciSWAP | cFSWAP | cECR => true
-  | cRX | cRY | cRZ | cGPI2 | cCRX | cCRY | cCRZ => angle_flag g
+  | cRX | cRY | cRZ | cGPI2 => angle_flag g
+  | cCRX | cCRY | cCRZ => if half then angle_flag_half g else angle_flag g
   | cUnitary => g_uflag g
   | cM | cPauliNoise | cOther => false
   end.
+Definition clifford := clifford_at true.
+Definition clifford_v0 := clifford_at false.
 
 (* gate.controlled_by( *qs ) for a gate that is not yet controlled; None = RuntimeError *)
 Definition generic_controlled (g : gate) (qs : list nat) : gate :=
@@ -72,9 +80,10 @@ Definition controlled_by (g : gate) (qs : list nat) : option gate :=
   end.
 
 (* the acceptance test of execute_circuit *)
-Definition passes_acceptance (g : gate) : bool :=
-  clifford g || match g_cls g with cM | cPauliNoise => true | _ => false end.
-Definition accepted (c : list gate) : bool := forallb passes_acceptance c.
+Definition passes_acceptance_at (half : bool) (g : gate) : bool :=
+  clifford_at half g || match g_cls g with cM | cPauliNoise => true | _ => false end.
+Definition accepted_at (half : bool) (c : list gate) : bool := forallb (passes_acceptance_at half) c.
+Definition accepted := accepted_at true.
 
 (* engine rules with angle dispatch *)
 Definition m_RX (theta : float) : loc1 := m_RX_branch (rot_branch theta).
@@ -135,8 +144,9 @@ Fixpoint run_gates (gs : list gate) (T : tableau) : outcome :=
       end
   end.
 
-Definition execute_circuit (n : nat) (c : list gate) : outcome :=
-  if accepted c then run_gates c (zero_state n) else Rejected.
+Definition execute_circuit_at (half : bool) (n : nat) (c : list gate) : outcome :=
+  if accepted_at half c then run_gates c (zero_state n) else Rejected.
+Definition execute_circuit := execute_circuit_at true.
 
 (* every qubit the gate acts on is handed to the engine (what a sound acceptance needs) *)
 Definition args_cover_qubits (g : gate) : bool :=
